@@ -72,6 +72,17 @@ def run(ck):
             o = f.origins(f.term(bi)["args"][1], deep=True)
             ck.ob("DEFUSE", f.path, "keeps-root+1-generations", ("arg", 2) in o and ("lit", 1) in o, "new length = root + 1", f.loc(bi))
 
+    # a'. prefix deletion descends only into children owned by the node's own generation
+    f = getfn(ck, "sc", E, MT + "delete_prefix")
+    if f:
+        pushes = [(bi, t) for (bi, t) in f.calls(r"Vec::<T, A>::push$") if has_call_origin(f.origins(t["args"][1], deep=True), r"::index$")]
+        ck.ob("CMP", f.path, "sites:subtree-descent", len(pushes) >= 1, "%d places queue a child for invalidation" % len(pushes), f.loc(), nontrivial=False)
+        for n, (bi, t) in enumerate(pushes):
+            ok, d = rules.guarded_site(f, bi, [("field", "generation")], [("call", r"ChildrenCow(::<V>)?::get_owned$")], "Ne")
+            ck.ob("CMP", f.path, "descend-only-into-own-generation#%d" % n, ok,
+                  "children are queued for invalidation only when node.generation == children's generation (older generations are never written): " + d if ok else
+                  "the generation guard of the invalidation loop does not decide equality: entries of older generations can be tombstoned (" + d + ")", f.loc(bi))
+
     # b. who may mutate persistent nodes
     cg = CallGraph([c])
     allowed = {LL + "Node::cache", LL + "Node::migrate::{closure#0}", LL + "Node::store_update_buf", LL + "Node::store_update_buf::{closure#0}",
